@@ -232,8 +232,9 @@ func driveBigLists(t *Tracer, r Rng, n int) {
 			}
 		}
 		// point lookup on a long list keeps length and order
-		pts := make([]*object.Point, 0, 300000)
-		for i := 0; i < 300000; i++ {
+		nPts := int(r.Pick(300000, 1048579, 1048577, 524291))
+		pts := make([]*object.Point, 0, nPts)
+		for i := 0; i < nPts; i++ {
 			p, _ := object.NewPoint(139+float64(i%1000)*1e-4, 35+float64(i/1000)*1e-4, float64(i%97))
 			pts = append(pts, p)
 		}
